@@ -321,8 +321,18 @@ def run(ctx):
     ctx.check(good >= 2 and not bad, "C14.e", "Histogram1D.__init__:stats-default",
               "no frequencies -> Statistics(); bare frequencies -> given stats or INVALID_STATISTICS", "; ".join(bad) or "stores not found", init.where)
 
+    # `stats or INVALID_STATISTICS` (and every other truth test of a Statistics object) relies on plain object truthiness:
+    # a zero-weight record is a valid record, not "no record"
+    st_cls = m.cls("Statistics")
+    falsy = [n_ for n_ in ("__bool__", "__len__") if n_ in st_cls.methods]
+    ctx.check(not falsy, "C14.e", "Statistics:always-truthy", "Statistics defines neither __bool__ nor __len__",
+              f"Statistics defines {falsy}: `stats or INVALID_STATISTICS` in Histogram1D.__init__ then replaces a valid (e.g. zero-weight) record by the invalid one",
+              st_cls.where)
+
     # positive rescaling keeps mean / variance: per-field degrees of Statistics.__mul__ (shared with C06.a)
     from rules import c06
     c06.check_stats_mul(ctx, "C14.b", m)
     # division scales the statistics by exactly the reciprocal of the divisor (shared with C06.a)
     ctx.borrow("C06", ("HistogramBase.__itruediv__:scalar", "HistogramBase.__imul__:scalar"), "C14.b", floor=2)
+    # the sums are accumulated from the values the extractor hands on (float64 whatever came in; shared with C01.b)
+    ctx.borrow("C01", ("extract_1d_array:",), "C14.b", floor=1)
